@@ -119,3 +119,84 @@ def chunk_lo(pe, s, n):
 
 
 NS['chunk_lo'] = chunk_lo
+
+
+def fzero(pe):
+	from pyvc.values import i2f
+	return SF32(i2f(z3.IntVal(0)))
+
+
+NS['fzero'] = fzero
+
+PAIR = 'dv(citem(sigs, sel(indices, a)), citem(sigs, sel(indices, b)))'
+NP = 'nsel(sigs, indices)'
+
+
+def register_pairwise(reg):
+	"""jaccarddist_pairwise, square output: cell (a, b) and its mirror (b, a) hold THE distance of signatures a < b, the diagonal is zero"""
+	register_matrix(reg)
+	rows_done = lambda k: f'forall((a, b), 0 <= a, a < {k}, a < b, b < {NP}, mcell(out, a, b) == {PAIR} and mcell(out, b, a) == {PAIR})'
+	reg.contract(PM + 'jaccarddist_pairwise',
+		types={'sigs': Coll, 'flat': Const(False), 'out': Const(None), 'progress': Const(None)},
+		requires=['implies(not isnone(indices), forall(c, 0 <= c, c < len(indices), 0 <= indices[c] and indices[c] < clen(sigs)))', 'clen(sigs) < 2**63'],
+		ensures=[f'mrows(result) == {NP}', f'mcols(result) == {NP}',
+		         f'forall((a, b), 0 <= a, a < b, b < {NP}, mcell(result, a, b) == {PAIR})',
+		         f'forall((a, b), 0 <= a, a < b, b < {NP}, mcell(result, b, a) == {PAIR})',
+		         f'forall(d, 0 <= d, d < {NP}, mcell(result, d, d) == fzero())'],
+		loops={
+			0: invariant('0 <= _i0', '_i0 <= n - 1 or (n <= 0 and _i0 == 0)', f'mrows(out) == {NP} and mcols(out) == {NP}', f'n == {NP}',
+			             f'forall(d, 0 <= d, d < {NP}, mcell(out, d, d) == fzero())',
+			             rows_done('_i0'),
+			             decreases='n - _i0'),
+		},
+	)
+
+
+# ---- condensed (flat) output: row a of the upper triangle starts at poff(n, a) -----------------------------------------------
+POFF = z3.Function('poff', I, I, I)
+
+
+def poff(pe, n, a):
+	return SInt(POFF(int_term(n), int_term(a)))
+
+
+NS['poff'] = poff
+
+
+def _poff_axiom():
+	"""definition by recursion on the row: poff(n, 0) = 0, poff(n, a) = poff(n, a - 1) + (n - a) - row a - 1 has n - a cells"""
+	n, a = z3.Ints('n a')
+	return z3.And(z3.ForAll([n], POFF(n, 0) == 0, patterns=[POFF(n, 0)]),
+	              z3.ForAll([n, a], z3.Implies(a >= 1, POFF(n, a) == POFF(n, a - 1) + (n - a)), patterns=[POFF(n, a)]))
+
+
+import pyvc.spec as _SPEC
+_SPEC.AXIOMS['poff'] = _poff_axiom
+
+
+def poff_closed_form(n, a):
+	"""the offset scipy.spatial.distance.squareform uses: cell (a, b), a < b, of the n x n matrix is element n*a - a(a+1)/2 + (b - a - 1)"""
+	return 2 * POFF(n, a) == a * (2 * n - a - 1)
+
+
+FLATCELL = 'mcell({m}, 0, poff(' + NP + ', a) + (b - a - 1))'
+
+
+def register_pairwise_flat(reg):
+	"""jaccarddist_pairwise(flat=True): element poff(n, a) + (b - a - 1) of the condensed vector holds THE distance of signatures a < b"""
+	register_matrix(reg)
+	reg.contract(PM + 'jaccarddist_pairwise',
+		types={'sigs': Coll, 'flat': Const(True), 'out': Const(None), 'progress': Const(None)},
+		axioms=['poff'],
+		requires=['implies(not isnone(indices), forall(c, 0 <= c, c < len(indices), 0 <= indices[c] and indices[c] < clen(sigs)))', 'clen(sigs) < 2**63'],
+		ensures=[f'2 * mcols(result) <= {NP} * ({NP} - 1)', f'{NP} * ({NP} - 1) < 2 * mcols(result) + 2',
+		         f'forall((a, b), 0 <= a, a < b, b < {NP}, ' + FLATCELL.format(m='result') + f' == {PAIR})'],
+		loops={
+			0: invariant('0 <= _i0', '_i0 <= n - 1 or (n <= 0 and _i0 == 0)', f'n == {NP}', 'mcols(out) == npairs',
+			             '2 * npairs <= n * (n - 1)', 'n * (n - 1) < 2 * npairs + 2',
+			             'next_out == poff(n, _i0)', '2 * next_out == _i0 * (2 * n - _i0 - 1)',
+			             'forall(a, 0 <= a, a < _i0, poff(n, a) + (n - a - 1) <= next_out)',
+			             f'forall((a, b), 0 <= a, a < _i0, a < b, b < {NP}, ' + FLATCELL.format(m='out') + f' == {PAIR})',
+			             decreases='n - _i0'),
+		},
+	)
